@@ -434,6 +434,9 @@ func callMsgAPIErr(api int, ms []*schema.Message, errAt int) (o MObs) {
 			ctx := context.Background()
 			ch := compose.NewChain[string, *schema.Message]()
 			ch.AppendLambda(compose.StreamableLambda(func(ctx context.Context, in string) (*schema.StreamReader[*schema.Message], error) {
+				if in == "tail" {
+					return streamOf(ms[1:], -1), nil
+				}
 				return streamOf(ms, errAt), nil
 			}))
 			r, cerr := ch.Compile(ctx)
@@ -441,11 +444,47 @@ func callMsgAPIErr(api int, ms []*schema.Message, errAt int) (o MObs) {
 				panic("harness: chain does not compile: " + cerr.Error())
 			}
 			out, err = r.Invoke(ctx, "")
+			// a second call on the SAME compiled object with ANOTHER chunk list (the first chunk dropped): what
+			// the stream-level entry point gives for that list, whatever the object converted before
+			if len(ms) >= 2 && errAt < 0 && secondCall == "" {
+				want, werr := compose.VerifConcatStreamReader(streamOf(ms[1:], -1))
+				if werr != nil || want != nil { // a nil value as a node's whole output is the graph engine's business
+					got, gerr := r.Invoke(ctx, "tail")
+					if w, g := msgCallObs(want, werr), msgCallObs(got, gerr); !mobsEqual(w, g) {
+						secondCall = fmt.Sprintf("chain.Invoke: the second call on the same compiled chain, made with the chunk list without its first chunk, gives %s; concatStreamReader gives %s for that list", js(g), js(w))
+					}
+				}
+			}
+			// the other conversion site of the engine: the stream feeds an invoke-only successor node while the
+			// chain is called with Stream (the graph converts the node input with the chunk type's concatStream)
+			if errAt < 0 && secondCall == "" && (err != nil || out != nil) {
+				ch2 := compose.NewChain[string, *schema.Message]()
+				ch2.AppendLambda(compose.StreamableLambda(func(ctx context.Context, in string) (*schema.StreamReader[*schema.Message], error) {
+					return streamOf(ms, -1), nil
+				}))
+				ch2.AppendLambda(compose.InvokableLambda(func(ctx context.Context, in *schema.Message) (*schema.Message, error) { return in, nil }))
+				r2, cerr := ch2.Compile(ctx)
+				if cerr != nil {
+					panic("harness: chain does not compile: " + cerr.Error())
+				}
+				var got *schema.Message
+				sr, gerr := r2.Stream(ctx, "")
+				if gerr == nil {
+					got, gerr = compose.VerifConcatStreamReader(sr)
+				}
+				if w, g := msgCallObs(out, err), msgCallObs(got, gerr); !mobsEqual(w, g) {
+					secondCall = fmt.Sprintf("the chunk list converted for an invoke-only successor node (chain called with Stream) gives %s; chain.Invoke on the streaming node alone gives %s", js(g), js(w))
+				}
+			}
 		}
 	})
 	if p != nil {
 		return MObs{Class: "panic", Msg: fmt.Sprint(p)}
 	}
+	return msgCallObs(out, err)
+}
+
+func msgCallObs(out *schema.Message, err error) MObs {
 	if err != nil {
 		return MObs{Class: "err", Msg: err.Error()}
 	}
@@ -602,11 +641,8 @@ func runMsg(c *Case) lib.Result {
 	// re-chunking: concatenate any segment [i,j) first, splice the result in, concatenate again
 	for _, a := range []int{apiConcatMessages, apiStreamReader} {
 		whole := obs[a]
-		for i := 0; i < n && res.Oracle == ""; i++ {
-			for j := i + 1; j <= n && res.Oracle == ""; j++ {
-				if i == 0 && j == n {
-					continue
-				}
+		for _, sg := range segmentsOf(n) {
+			if i, j := sg[0], sg[1]; res.Oracle == "" {
 				seg, _ := runOn(a, c.Msgs[i:j])
 				sig := "msg-rechunk"
 				if i > 0 {
@@ -650,8 +686,10 @@ func runMsg(c *Case) lib.Result {
 			if api == apiChain {
 				api = apiStreamReader
 			}
+			// the same message values for every call on every goroutine (what two consumers of one copied stream get)
+			shared := buildMsgs(c.Msgs)
 			own := func() string {
-				o := callMsgAPI(api, buildMsgs(c.Msgs))
+				o := callMsgAPI(api, shared)
 				if o.Class == "panic" {
 					return "panic " + o.Msg
 				}
@@ -662,7 +700,32 @@ func runMsg(c *Case) lib.Result {
 			}
 		}
 	}
+	if c.Cold > 0 {
+		res.Tags = append(res.Tags, "feat:cold-start")
+		if res.Oracle == "" {
+			api := c.API
+			if api == apiChain {
+				api = apiStreamReader
+			}
+			why, lost := coldPhase(c, func() string { return msgPure(api, c.Msgs) })
+			if why != "" {
+				fail("cold-start-nondet", "%s: %s", apiNames[api], why)
+			}
+			if lost > 0 {
+				res.Tags = append(res.Tags, "cold:child-lost")
+			}
+		}
+	}
 	return res
+}
+
+// msgPure: the case's own concatenation on freshly built messages, canonical rendering, no harness state touched
+func msgPure(api int, ms []*Msg) string {
+	o := callMsgAPI(api, buildMsgs(ms))
+	if o.Class == "panic" {
+		return "panic " + o.Msg
+	}
+	return renderObs(o.Class, normMsg(o.Val))
 }
 
 // fieldSpec states what ConcatMessages must return for the fields the property's mechanism
@@ -994,6 +1057,49 @@ type msgProfile struct {
 	// indexes drawn from 0..wide-1, 2-6 fragments per chunk, a quarter of them without index,
 	// so that the merged list is longer than the small lists every other case produces
 	wide int
+	// long: a stream as long as the ones a model really sends (dozens to hundreds of small chunks: content pieces,
+	// fragments of up to three tool calls, now and then an Extra map, a closing response meta), free of conflicts
+	long bool
+}
+
+// genLongMsg: chunk i of a long stream
+func genLongMsg(r *lib.Rng, p *msgProfile, i int) *Msg {
+	m := &Msg{Content: r.Pick(strPool)}
+	if i == 0 || r.Chance(1, 4) {
+		m.Role = p.role
+	}
+	if r.Chance(1, 3) {
+		v := int64(r.Intn(3))
+		t := TC{Idx: &v, Args: r.Pick(strPool)}
+		if r.Chance(1, 4) {
+			t.ID = fmt.Sprintf("call_%d", v)
+		}
+		if r.Chance(1, 4) {
+			t.Name = fmt.Sprintf("fn%d", v)
+		}
+		if r.Chance(1, 4) {
+			t.Type = "function"
+		}
+		m.TCs = []TC{t}
+	}
+	if r.Chance(1, 6) {
+		m.Extra = &CV{K: "map", M: map[string]*CV{"a": {K: "str", S: r.Pick(strPool)}}}
+		if r.Chance(1, 2) {
+			m.Extra.M["n"] = &CV{K: "num", Kind: 1, Z: int64(r.Range(-2, 3))}
+		}
+	}
+	if r.Chance(1, 10) {
+		mm := &Meta{Finish: r.Pick(finishPool)}
+		if r.Chance(1, 2) {
+			mm.Usage = &[3]int64{int64(r.Range(0, 20)), int64(r.Range(0, 20)), int64(r.Range(0, 40))}
+		}
+		if r.Chance(1, 2) {
+			mm.HasLP = true
+			mm.LP = []string{r.Pick([]string{"t1", "t2", "t3"})}
+		}
+		m.Meta = mm
+	}
+	return m
 }
 
 func pickConsistent(r *lib.Rng, base string, others []string) string {
@@ -1184,8 +1290,19 @@ func genMsgCase(r *lib.Rng, tier string) *Case {
 			n = r.Range(3, 6)
 		}
 	}
+	if r.Chance(1, 25) {
+		p.long, p.wide = true, 0
+		n = r.Range(33, 100)
+		if tier == "thorough" {
+			n = r.Range(33, 150)
+		}
+	}
 	for i := 0; i < n; i++ {
-		c.Msgs = append(c.Msgs, genMsg(r, p))
+		if p.long {
+			c.Msgs = append(c.Msgs, genLongMsg(r, p, i))
+		} else {
+			c.Msgs = append(c.Msgs, genMsg(r, p))
+		}
 	}
 	if c.API != apiConcatMessages && r.Chance(1, 12) {
 		k := r.Intn(n + 1)
